@@ -32,14 +32,40 @@ def _build(emit_name, fname):
     module = ast.Module(body, [])
     ast.fix_missing_locations(module)
     code = TemplateCodeGenerator(module).code
-    env = {
+    env = dict(prelude_env())
+    env.update({
         'decode': lambda b: b.decode('utf-8'),
         'translate': _translate,
         '__i18n_domain': None, '__i18n_context': None, 'target_language': None,
-        '__re_needs_escape': re.compile(r'[&<>\"\']').search,
-    }
+    })
     exec(code, env)
     return env[fname]
+
+
+_prelude = None
+
+
+def prelude_env():
+    """the names a render function's helpers can see, taken from a REAL compiled template: the
+    module-level statements of the generated module and the leading `__x = g_x` aliases of its
+    render function (so `__re_needs_escape`, `__re_amp`, ... are whatever the compiler emits)"""
+    global _prelude
+    if _prelude is None:
+        from chameleon.zpt.template import PageTemplate
+        src = PageTemplate('x', keep_source=True).source
+        tree = ast.parse(src)
+        env = {}
+        mod = ast.Module([st for st in tree.body if not isinstance(st, ast.FunctionDef)], [])
+        exec(compile(mod, '<prelude>', 'exec'), env)
+        for st in tree.body:
+            if isinstance(st, ast.FunctionDef):
+                for sub in ast.walk(st):
+                    if isinstance(sub, ast.Assign) and isinstance(sub.value, ast.Name) and \
+                            sub.value.id in env and len(sub.targets) == 1 and \
+                            isinstance(sub.targets[0], ast.Name):
+                        env[sub.targets[0].id] = env[sub.value.id]
+        _prelude = env
+    return _prelude
 
 
 _quote = None
